@@ -14,7 +14,7 @@ WRAPF  := $(foreach w,$(WRAPS),-Wl,--wrap=$(w))
 
 # in-process properties / properties under the deterministic scheduler (DST)
 PURE   := C17 C19 C18
-DST    := C05 C15 C06 C08 C09 C04 C07 C11 C12 C13 C02 C10 C14
+DST    := C05 C15 C06 C08 C09 C04 C07 C11 C12 C13 C02 C10 C14 C03
 # DST + short-transfer injection on the stream syscalls
 DSTIO  := C01
 ALL    := $(PURE) $(DST) $(DSTIO)
@@ -35,7 +35,7 @@ $(B)/obj/%.o: $(V)/props/%.c $(LIBNNG)
 	@mkdir -p $(B)/obj
 	$(CC) $(CFLAGS) $(NNGDEFS) -MMD -c $< -o $@
 
-$(B)/obj/%.o: $(V)/props/%.cpp $(V)/engine/pbt.hpp $(LIBNNG)
+$(B)/obj/%.o: $(V)/props/%.cpp $(V)/engine/pbt.hpp $(wildcard $(V)/props/*.hpp) $(wildcard $(V)/engine/*.h) $(LIBNNG)
 	@mkdir -p $(B)/obj
 	$(CXX) $(CXXFLAGS) -MMD -c $< -o $@
 
